@@ -31,6 +31,13 @@ import copy
 _INV = {ast.Eq: ast.NotEq, ast.NotEq: ast.Eq, ast.Is: ast.IsNot, ast.IsNot: ast.Is, ast.In: ast.NotIn, ast.NotIn: ast.In}
 
 
+def _plain_ref(e) -> bool:
+    """a name or a dotted attribute of a name (a function / bound method handed around as a value)"""
+    while isinstance(e, ast.Attribute):
+        e = e.value
+    return isinstance(e, ast.Name)
+
+
 def _strip_not(test):
     """(test', flipped)"""
     flipped = False
@@ -153,7 +160,7 @@ class Normalizer(ast.NodeTransformer):
         self.generic_visit(node)
         # for k in ("a", "b", "c"): <a few simple statements>   ->   the statements once per constant
         if (
-            isinstance(node.iter, (ast.Tuple, ast.List)) and 1 <= len(node.iter.elts) <= 8 and all(isinstance(e, ast.Constant) and isinstance(e.value, (str, int)) for e in node.iter.elts)
+            isinstance(node.iter, (ast.Tuple, ast.List)) and 1 <= len(node.iter.elts) <= 8 and all(isinstance(e, ast.Constant) and isinstance(e.value, (str, int)) or _plain_ref(e) for e in node.iter.elts)
             and isinstance(node.target, ast.Name) and not node.orelse and len(node.body) <= 3
             and all(isinstance(b, (ast.Expr, ast.Assign)) for b in node.body)
             and not any(isinstance(n, ast.Name) and n.id == node.target.id and isinstance(n.ctx, ast.Store) for b in node.body for n in ast.walk(b))
@@ -1099,6 +1106,154 @@ def _copy_propagate(fn: ast.FunctionDef) -> bool:
     return changed
 
 
+def _forward_subst(fn: ast.FunctionDef) -> bool:
+    """`x = E` directly followed by the one statement that reads x (x bound once, read once, the read is evaluated exactly once and
+    before any call of that statement): the read is replaced by E and the binding disappears.  `Extract variable` and `Inline
+    variable` are the same program; this is the canonical form (no explaining temporaries)."""
+    if any(isinstance(n, (ast.Global, ast.Nonlocal)) for n in ast.walk(fn)):
+        return False
+    stores: dict = {}
+    loads: dict = {}
+    for n in ast.walk(fn):
+        if isinstance(n, ast.Name):
+            d = loads if isinstance(n.ctx, ast.Load) else stores
+            d[n.id] = d.get(n.id, 0) + 1
+        elif isinstance(n, ast.arg):
+            stores[n.arg] = stores.get(n.arg, 0) + 2
+        elif isinstance(n, (ast.FunctionDef, ast.ClassDef, ast.Lambda)) and n is not fn:
+            for m in ast.walk(n):  # names touched by nested scopes are left alone
+                if isinstance(m, ast.Name):
+                    stores[m.id] = stores.get(m.id, 0) + 2
+        elif isinstance(n, ast.ExceptHandler) and n.name:
+            stores[n.name] = stores.get(n.name, 0) + 2
+
+    def first_use(root, name):
+        """walk `root` in evaluation order; -> (the Name node if it is reached before any call has completed and outside a conditionally
+        / repeatedly evaluated context, else None)"""
+        state = {"calls": 0, "hit": None, "dead": False}
+
+        def go(n, cond):
+            if state["hit"] is not None or state["dead"]:
+                return
+            if isinstance(n, ast.Name):
+                if n.id == name and isinstance(n.ctx, ast.Load):
+                    if cond or state["calls"]:
+                        state["dead"] = True
+                    else:
+                        state["hit"] = n
+                return
+            if isinstance(n, (ast.ListComp, ast.SetComp, ast.DictComp, ast.GeneratorExp)):
+                # only the first iterable is evaluated exactly once, in the enclosing scope
+                go(n.generators[0].iter, cond)
+                if any(isinstance(m, ast.Name) and m.id == name for m in ast.walk(n)) and state["hit"] is None:
+                    state["dead"] = True
+                state["calls"] += 1
+                return
+            if isinstance(n, ast.Lambda):
+                if any(isinstance(m, ast.Name) and m.id == name for m in ast.walk(n)):
+                    state["dead"] = True
+                return
+            if isinstance(n, ast.BoolOp):
+                go(n.values[0], cond)
+                for v in n.values[1:]:
+                    go(v, True)
+                return
+            if isinstance(n, ast.IfExp):
+                go(n.test, cond)
+                go(n.body, True)
+                go(n.orelse, True)
+                return
+            if isinstance(n, ast.Compare) and len(n.comparators) > 1:
+                go(n.left, cond)
+                go(n.comparators[0], cond)
+                for v in n.comparators[1:]:
+                    go(v, True)
+                return
+            if isinstance(n, ast.NamedExpr):
+                state["dead"] = True
+                return
+            if isinstance(n, ast.Dict):
+                for k, v in zip(n.keys, n.values):
+                    if k is not None:
+                        go(k, cond)
+                    go(v, cond)
+                return
+            for c in ast.iter_child_nodes(n):
+                go(c, cond)
+            if isinstance(n, (ast.Call, ast.Await, ast.Yield, ast.YieldFrom)):
+                state["calls"] += 1
+
+        go(root, False)
+        return state["hit"]
+
+    def header(st):
+        """the expressions of `st` that are evaluated exactly once, first, when st runs (in order)"""
+        if isinstance(st, ast.Assign):
+            return [st.value] + [t for t in st.targets if not isinstance(t, ast.Name)]
+        if isinstance(st, ast.AnnAssign):
+            return [st.value] if st.value is not None else []
+        if isinstance(st, ast.AugAssign):
+            return []  # target is read before the value
+        if isinstance(st, (ast.Expr, ast.Return)):
+            return [st.value] if st.value is not None else []
+        if isinstance(st, ast.Raise):
+            return [st.exc] if st.exc is not None else []
+        if isinstance(st, ast.If):
+            return [st.test]
+        if isinstance(st, ast.For):
+            return [st.iter]
+        return []
+
+    changed = False
+
+    def scan(owner):
+        nonlocal changed
+        for f_ in ("body", "orelse", "finalbody"):
+            lst = getattr(owner, f_, None)
+            if not (isinstance(lst, list) and lst and isinstance(lst[0], ast.stmt)):
+                continue
+            i = 0
+            while i < len(lst) - 1:
+                st, nxt = lst[i], lst[i + 1]
+                if (
+                    isinstance(st, ast.Assign) and len(st.targets) == 1 and isinstance(st.targets[0], ast.Name)
+                    and stores.get(st.targets[0].id) == 1 and loads.get(st.targets[0].id) == 1
+                    and not isinstance(st.value, (ast.Yield, ast.YieldFrom, ast.Await, ast.Lambda, ast.GeneratorExp))
+                    and not st.targets[0].id.startswith("__")
+                ):
+                    name = st.targets[0].id
+                    hit = None
+                    for h in header(nxt):
+                        if any(isinstance(m, ast.Name) and m.id == name for m in ast.walk(h)):
+                            hit = first_use(h, name)
+                            break
+                        if any(isinstance(m, (ast.Call, ast.Await)) for m in ast.walk(h)):
+                            break
+                    if hit is not None:
+                        val = st.value
+
+                        class _S(ast.NodeTransformer):
+                            def visit_Name(s_, n):
+                                return val if n is hit else n
+
+                        lst[i + 1] = _S().visit(nxt)
+                        del lst[i]
+                        stores.pop(name, None)
+                        loads.pop(name, None)
+                        changed = True
+                        i = max(i - 1, 0)
+                        continue
+                i += 1
+            for st in lst:
+                if not isinstance(st, (ast.FunctionDef, ast.ClassDef)):
+                    scan(st)
+        for h in getattr(owner, "handlers", []) or []:
+            scan(h)
+
+    scan(fn)
+    return changed
+
+
 _CONTAINER_ATTRS = ("candles", "_candles", "sub_indicators", "managed_indicators", "_indicators", "candle_manager", "_candle_map")
 
 
@@ -1142,6 +1297,7 @@ def normalize(tree: ast.AST) -> ast.AST:
     again = False
     for fn_ in [n for n in ast.walk(tree) if isinstance(n, ast.FunctionDef)]:
         again = _copy_propagate(fn_) or again
+        again = _forward_subst(fn_) or again
     enums = _enum_members(tree)
     if enums:
         for fn_ in [n for n in ast.walk(tree) if isinstance(n, ast.FunctionDef)]:
